@@ -41,7 +41,9 @@ def wellformed(draw, boundary):
             parts.append({'name': name, 'filename': draw(st.sampled_from(['x.txt', 'a;b.bin', 'é'])), 'ctype': pct, 'value': val})
         else:
             parts.append({'name': name, 'value': val, 'ctype': pct,
-                          'extra_headers': draw(st.sampled_from([None, None, [('Content-Transfer-Encoding', 'base64')], [('Content-Length', '3')], [('content-type', 'text/x; charset=nope')]]))})
+                          'extra_headers': draw(st.sampled_from([None, None, [('Content-Transfer-Encoding', 'base64')], [('Content-Length', '3')], [('content-type', 'text/x; charset=nope')],
+                                                                    [('Content-Length', '\u00b2')], [('Content-Length', '\u2461')], [('Content-Length', '9' * 5000)], [('Content-Length', '-1')],
+                                                                    [('Content-Length', ' 3 ')], [('Content-Length', '3.0')], [('Content-Length', '')], [('Content-Length', '\u0663')]]))})
     body, truth = encode_multipart(boundary, parts, draw(st.sampled_from([b'', b'', b'\r\n'])), draw(st.sampled_from([b'', b'\r\n', b'\r\nepilogue'])))
     return body, truth
 
@@ -50,7 +52,7 @@ def wellformed(draw, boundary):
 CHARSETS = ['utf-8', 'UTF8', 'ISO-8859-1', 'latin-1', 'cp1252', 'utf-16', 'utf-7', 'ascii', 'x-user-defined', 'klingon', 'utf-8-bogus', 'base64', 'hex', 'rot13', 'zlib', 'bz2',
             'quopri', 'uu', 'idna', 'punycode', 'unicode_escape', 'undefined', 'mbcs', '', '"utf-8"', '"', 'utf-8; x=1', 'a' * 300, '\xe9', 'utf 8', '%00', '../x']
 
-MUTS = ['hdr_ctl', 'hdr_ctl', 'hdr_run', 'hdr_run', 'drop_delim', 'dup_delim', 'no_close', 'truncate', 'hdr_nonutf8', 'hdr_nocolon', 'hdr_noname', 'hdr_emptyval', 'hdr_emptyblock', 'hdr_quote', 'bare_cr', 'bare_lf',
+MUTS = ['hdr_barename', 'hdr_barename', 'hdr_ctl', 'hdr_ctl', 'hdr_run', 'hdr_run', 'drop_delim', 'dup_delim', 'no_close', 'truncate', 'hdr_nonutf8', 'hdr_nocolon', 'hdr_noname', 'hdr_emptyval', 'hdr_emptyblock', 'hdr_quote', 'bare_cr', 'bare_lf',
         'insert', 'replace', 'delete', 'preamble', 'hdr_only_name', 'lf_only', 'swap_halves']
 
 
@@ -92,7 +94,9 @@ def mutate(body, truth, mut, a, b, boundary):
         s, e = hdrs[a % len(hdrs)]
         new = {'hdr_nonutf8': b'Content-Disposition: form-data; name="\xff\xfe"', 'hdr_nocolon': b'Content-Disposition form-data name="a"',
                'hdr_noname': b'Content-Disposition: form-data; filename="x"', 'hdr_emptyval': b'Content-Disposition:', 'hdr_emptyblock': b'',
-               'hdr_quote': b'Content-Disposition: form-data; name="a; filename="b', 'hdr_only_name': b'name="a"'}[mut]
+               'hdr_quote': b'Content-Disposition: form-data; name="a; filename="b', 'hdr_only_name': b'name="a"',
+               'hdr_barename': [b'Content-Disposition: form-data; name', b'Content-Disposition: form-data; name; filename="x"', b'Content-Disposition: form-data; name="a"; filename',
+                                b'Content-Disposition: form-data; name=; filename=', b'Content-Disposition: form-data; NAME'][b % 5]}[mut]
         return body[:s] + new + body[e:]
     if mut == 'bare_cr':
         return body[:pos] + b'\r' + body[pos:]
@@ -449,6 +453,23 @@ def run(ctx):
                         ctx.guarded(check_case, {'family': 'multipart', 'body': bd, 'ctype': 'multipart/form-data; boundary=bnd', 'boundary': 'bnd', 'mutations': [['part_charset', 0, 0]],
                                                  'framing': 'length', 'fr_a': 0, 'fr_b': 1, 'chunks': [], 'B': 102400, 'access': ['POST', 'forms', 'files'], 'pattern': [], 'method': 'POST'})
         ctx.count('part_charset_grid')
+        # a part that declares its own length (right, wrong, digit-like characters, huge, signed, blank), and bare parameters in Content-Disposition
+        for cl in ('3', '4', '0', '\u00b2', '\u2461', '\u0663', '9' * 5000, '-1', '+3', ' 3 ', '3.0', '', '0x3', '3e0', '\uff13'):
+            for fn in (None, 'x.bin'):
+                p0 = {'name': 'a', 'value': b'abc', 'extra_headers': [('Content-Length', cl)]}
+                if fn:
+                    p0['filename'] = fn
+                bd, _ = encode_multipart('bnd', [p0, {'name': 'b', 'value': b'tail'}], b'', b'\r\n')
+                ctx.guarded(check_case, {'family': 'multipart', 'body': bd, 'ctype': 'multipart/form-data; boundary=bnd', 'boundary': 'bnd', 'mutations': [['part_length', 0, 0]],
+                                         'framing': 'length', 'fr_a': 0, 'fr_b': 1, 'chunks': [], 'B': 102400, 'access': ['POST', 'files'], 'pattern': [], 'method': 'POST'})
+        for b in range(5):
+            mutated = mutate(wf2, truth2, 'hdr_barename', 0, b, 'bnd')
+            for a in (0, 1, 2):
+                mutated2 = mutate(wf2, truth2, 'hdr_barename', a, b, 'bnd')
+                for acc in (['POST'], ['forms'], ['files']):
+                    ctx.guarded(check_case, {'family': 'multipart', 'body': mutated2, 'ctype': 'multipart/form-data; boundary=bnd', 'boundary': 'bnd', 'mutations': [['hdr_barename', a, b]],
+                                             'framing': 'length', 'fr_a': 0, 'fr_b': 1, 'chunks': [], 'B': 102400, 'access': acc, 'pattern': [], 'method': 'POST'})
+        ctx.count('part_length_and_bare_parameter_grid')
         # boundary lengths around and beyond the RFC limit of 70, well-formed / truncated / empty bodies, every reader, both framings
         for L in (1, 69, 70, 71, 72, 100, 1000):
             bnd = 'x' * L
